@@ -776,6 +776,54 @@ def printf (s : St) (v : Nat) (f : List Fmt) : Option (St × Nat) := do
   let s ← detach s v 0 Generated.printfBuf
   printfTail s v (render f)
 
+/-! ### operators and static factories that return a String by value
+
+    The slots `t0`, `t1`, `t2` are the temporaries of the C++ expression; the result is assigned to `v`
+    (`v = <expression>`, as the harness does) and the temporaries are destroyed. -/
+
+/-- `v = a + b`: `String(*this).append(other)` — the copy lives in `t0`, `append` returns a reference to it, the
+    function result is copy-constructed from that reference (`t1`), `t0` dies, `v = t1`, `t1` dies -/
+def plusS (s : St) (v a b t0 t1 : Nat) : Option St := do
+  let s ← ctorCopy s t0 a
+  let s ← appendS s t0 b
+  let s ← ctorCopy s t1 t0
+  let s := setEmpty s t0
+  let s ← assign s v t1
+  pure (setEmpty s t1)
+
+/-- `v = a + "literal"`: the operand is the temporary `String(str)`, a descriptor of the literal (slot `t2`) -/
+def plusLit (s : St) (v a r len t0 t1 t2 : Nat) : Option St := do
+  let s := attach s t2 r 0 len
+  let s ← plusS s v a t2 t0 t1
+  pure (setEmpty s t2)
+
+/-- `static usize length(const char* s)`: the loop up to the NUL of the C string `src ++ [0]` -/
+def cstrLen (src : List Nat) : Nat := (src.takeWhile (· ≠ 0)).length
+
+/-- `v = String::fromCString(str)` = `String(str, length(str))` -/
+def fromCStr (s : St) (v : Nat) (src : List Nat) (tmp : Nat) : Option St :=
+  assignTemp s v ((src.take (cstrLen src)).map some) tmp
+
+/-- `v = String::fromBool(b)`: the temporary `String("true")` / `String("false")` is a descriptor (`ref == 0`) of a
+    literal outside the modelled regions, so `operator=` takes its deep-copy branch: release, new block with the
+    chars of the literal (the literals come from String.hpp through the translator) -/
+def fromBool (s : St) (v : Nat) (b : Bool) : Option St :=
+  ctorPtr s v ((if b then Generated.trueLit else Generated.falseLit).map some)
+
+/-- `fromInt/fromUInt/fromInt64/fromUInt64`: `String result; result.printf(fmt, value); return result;` (named
+    return value, no copy), then `v = <result>` -/
+def fromFmt (s : St) (v : Nat) (f : List Fmt) (tmp : Nat) : Option St := do
+  let (s, _) ← printf s tmp f
+  let s ← assign s v tmp
+  pure (setEmpty s tmp)
+
+/-- `v = String::fromPrintf(format, …)`: `String s(200)` (capacity exactly 200, no mask), the two attempts, `v = s` -/
+def fromPrintf (s : St) (v : Nat) (f : List Fmt) (tmp : Nat) : Option St := do
+  let s ← ctorCap s tmp Generated.fromPrintfBuf
+  let (s, _) ← printfTail s tmp (render f)
+  let s ← assign s v tmp
+  pure (setEmpty s tmp)
+
 /-! ### observations -/
 
 /-- the abstract value of a slot: its `length()` chars -/
@@ -834,6 +882,16 @@ inductive Op where
   | replaceS (v wn wr_ : Nat)
   | replaceL (v : Nat) (needle repl : List Nat)
   | printf (v : Nat) (f : List Fmt)
+  | plusEqS (v w : Nat)                      -- `v += w`
+  | plusEqC (v c : Nat)                      -- `v += c`
+  | plus (v a b : Nat)                       -- `v = a + b`
+  | plusLit (v a r len : Nat)                -- `v = a + "literal"` (region `r` holds the literal and its NUL)
+  | fromCStr (v : Nat) (src : List Nat)      -- `v = String::fromCString(str)`, `str` = `src` followed by a NUL
+  | fromCStrN (v : Nat) (src : List Nat)     -- `v = String::fromCString(str, len)`
+  | fromBool (v : Nat) (b : Bool)            -- `v = String::fromBool(b)`
+  | fromD (v : Nat) (x : Int)                -- `v = String::fromInt(x)` / `fromInt64(x)`
+  | fromU (v : Nat) (x : Nat)                -- `v = String::fromUInt(x)` / `fromUInt64(x)`
+  | fromPrintf (v : Nat) (f : List Fmt)      -- `v = String::fromPrintf(format, …)`
   deriving Repr
 
 /-- user variables are `0 .. nu-1`, temporaries `nu`, `nu+1`, `nu+2` -/
@@ -882,6 +940,17 @@ def step (s : St) (op : Op) : Option St :=
       pure (setEmpty (setEmpty s (t + 1)) (t + 2))
     else none
   | .printf v f => if validVar s v then (printf s v f).map (·.1) else none
+  | .plusEqS v w => if validVar s v ∧ validVar s w then appendS s v w else none
+  | .plusEqC v c => if validVar s v then appendC s v c else none
+  | .plus v a b => if validVar s v ∧ validVar s a ∧ validVar s b then plusS s v a b t (t + 1) else none
+  | .plusLit v a r len =>
+    if validVar s v ∧ validVar s a ∧ len < (s.regs r).length then plusLit s v a r len t (t + 1) (t + 2) else none
+  | .fromCStr v src => if validVar s v then fromCStr s v src t else none
+  | .fromCStrN v src => if validVar s v then assignTemp s v (src.map some) t else none
+  | .fromBool v b => if validVar s v then fromBool s v b else none
+  | .fromD v x => if validVar s v then fromFmt s v [.d x] t else none
+  | .fromU v x => if validVar s v then fromFmt s v [.u x] t else none
+  | .fromPrintf v f => if validVar s v then fromPrintf s v f t else none
 
 def run (s : St) : List Op → Option St
   | [] => some s
